@@ -183,11 +183,27 @@ Qed.
 
 (* --------------------------------------------- faithful store behaviour (known findings) *)
 
-(* MemoryTags.merge_to never touches the master of a bound destination *)
-Theorem merge_memsrc_master_untouched src dst master ov sel :
-  snd (fst (fst (merge_memsrc src dst master ov sel))) = master.
+(* MemoryTags.merge_to (since b75814f): child and master each receive reconcile(source, own dict) *)
+Theorem merge_memsrc_child src dst master ign ov sel :
+  fst (fst (fst (merge_memsrc src dst master ign ov sel))) = res bytes bytes (reconcileB src dst ov sel).
 Proof.
-  unfold merge_memsrc. destruct (reconcileB src dst ov sel) as [[r u] c]. reflexivity.
+  unfold merge_memsrc, res. destruct (reconcileB src dst ov sel) as [[r1 u1] c1].
+  destruct master as [m|]; [|reflexivity]. destruct ign; [reflexivity|].
+  destruct (reconcileB src m ov sel) as [[r2 u2] c2]. reflexivity.
+Qed.
+
+Theorem merge_memsrc_master src dst m ov sel :
+  snd (fst (fst (merge_memsrc src dst (Some m) false ov sel))) = Some (res bytes bytes (reconcileB src m ov sel)).
+Proof.
+  unfold merge_memsrc, res. destruct (reconcileB src dst ov sel) as [[r1 u1] c1].
+  destruct (reconcileB src m ov sel) as [[r2 u2] c2]. reflexivity.
+Qed.
+
+Theorem merge_memsrc_master_ignored src dst master ov sel :
+  snd (fst (fst (merge_memsrc src dst master true ov sel))) = master.
+Proof.
+  unfold merge_memsrc. destruct (reconcileB src dst ov sel) as [[r1 u1] c1].
+  destruct master as [m|]; reflexivity.
 Qed.
 
 (* git destination: exactly the entries whose revision is a commit of the repository are kept *)
